@@ -66,6 +66,8 @@ def invariance_case(rec, seedt, backend, nmax, cuda):
     where = str(rng.choice(["x", "y", "both"])) if cross else "x"
     win = {"kind": "hann", "name": "hann"} if rng.random() < 0.5 else \
         {"kind": "kaiser", "psll": float(rng.choice([60, 120, 200]))}
+    if rng.random() < 0.2:
+        win = {"kind": "callable", "name": str(rng.choice(list(api.CALLABLES)))}
     sched = str(rng.choice(gen.SCHEDS))
     x = gen.record(rng, N, str(rng.choice(["white", "ar1", "walk", "sine+noise"])))
     y = gen.second_channel(rng, x, "mixed") if cross else None
